@@ -775,7 +775,10 @@ func (g *gen) nestCases(thorough bool) {
 		if n < 1 {
 			continue
 		}
-		for _, sh := range shapes {
+		for si, sh := range shapes {
+			if !thorough && n >= 10*l && si >= 2 {
+				continue // quick tier: 10x the limit for plain lists and objects only
+			}
 			k := n
 			if len(sh.open) > 3 { // two levels per unit
 				k = (n + 1) / 2
